@@ -422,8 +422,9 @@ LEVEL_TEXT = ("Theorems (Coq, unbounded): every adapter stack of any depth (Seek
               "chunkings and inputs' is a universally quantified statement; the proof decides it, the batch ties the models to the code.")
 LEVEL_NOTE = ("Trusted: Coq kernel; the adapter models (C15's batch), the stack-reader model of the sanitizer's own BufReader operations, the MP4 "
               "programme model (mp4 area's batch), all compared again here; the sync/async identity holds by construction in the model and is "
-              "sampled on the code; File = seek-style cursor with the probed lseek limit; webpsan has no model here (views compared with each "
-              "other only). "
+              "sampled on the code; File = seek-style cursor with the probed lseek limit; for webpsan the theorems C11_same_result_webp / "
+              "C11_webp_view_is_model are about the container programme of Webp/Container.v (any lossless validator); in this batch the webp views are "
+              "compared with each other only, the container model itself is tied to the code by C06's batch. "
               "Known finding D11 is reported as KNOWN-FINDING on every run. No axioms.")
 TECHNIQUE = "Coq simulation proof (lenient refinement of every adapter, induction on stacks and on programmes) + differential check of extracted programme-through-stack vs real entry points + cross-view oracle"
 DESIGN_REF = "DESIGN.md section 7 (C11), section 8 (D11), Appendix A"
